@@ -94,6 +94,19 @@ def _mut_work(args):
             bad.append(("accepted single-bracket mutant", src))
         elif k.startswith("bad"):
             bad.append(("bracket mutant not rejected with ParseError: %s %s" % (k, d), src))
+    # positions are not identities: the same mutants with every token on a line of its own, all renumbered to the
+    # same line (a sample: the programs that contain a parenthesised type name)
+    if any(v in ("sizeof", "_Alignof", "int") for v in vals) and "(" in vals and not any(v.endswith("\n") or v.startswith("\n") for v in vals):
+        from .. import layout
+        ms = list(mutants(vals, inserts=False))
+        for mv in rnd.sample(ms, min(len(ms), 10)):
+            src = layout.render(mv, "sameline", rnd)
+            n += 1
+            k, d = classify(src, "f.c", check_loc=False)
+            if k == "ok":
+                bad.append(("accepted single-bracket mutant laid out with all tokens at one position", src))
+            elif k.startswith("bad"):
+                bad.append(("bracket mutant (one position for all tokens) not rejected with ParseError: %s %s" % (k, d), src))
     if with_inject:
         for _ in range(min(len(vals) + 1, 12)):
             i = rnd.randrange(len(vals) + 1)
